@@ -34,7 +34,7 @@ def run_mixed(ctx, prop, books, per_book=40, depth=3, exact=False):
             for fn in used:
                 r.count('mixed_fn:' + fn)
         r.count('mixed_formulas', len(targets))
-        vals = [[(0, a, v) for a, v in val] for val in exprs.VALUATIONS]
+        vals = [[(0, a, v) for a, v in val] for val in exprs.VALUATIONS] + [[(0, a, v) for a, v in exprs.random_valuation(rng)] for _ in range(3)]
 
         def unjudged(formula, outs):
             # an error value flowing through enclosing functions/operators is outside the statements (C13/C17 notes): only
